@@ -84,7 +84,7 @@ Qed.
 Lemma tp_insert_nodup : forall ts k l, NoDup (map snd l) -> ~ In k (map snd l) -> NoDup (map snd (tp_insert ts k l)).
 Proof.
   intros ts k l. induction l as [|[t a] r IH]; simpl; intros Hnd Hni.
-  - constructor; auto. constructor.
+  - constructor; [intros []|constructor].
   - inversion Hnd as [|? ? Hna Hnd']; subst. destruct (t <=? ts); simpl.
     + constructor.
       * rewrite tp_insert_keys_in. intros [->|H]; auto.
@@ -108,14 +108,17 @@ Qed.
 
 (* ---------- consumers list ---------- *)
 Lemma upd_length : forall n f l, length (upd n f l) = length l.
-Proof. induction n; destruct l; simpl; auto. Qed.
+Proof. induction n as [|n IH]; intros f [|x t]; simpl; auto. Qed.
 
 Lemma nth_upd_same : forall n f l d, (n < length l)%nat -> nth n (upd n f l) d = f (nth n l d).
-Proof. induction n; destruct l; simpl; intros; try lia; auto. apply IHn. lia. Qed.
+Proof.
+  induction n as [|n IH]; intros f [|x t] d H; simpl in *; try lia; auto.
+  apply IH. lia.
+Qed.
 
 Lemma nth_upd_other : forall n m f l d, n <> m -> nth m (upd n f l) d = nth m l d.
 Proof.
-  induction n; destruct l; simpl; intros; auto.
+  induction n as [|n IH]; intros m f [|x t] d H; simpl; auto.
   - destruct m; auto. congruence.
   - destruct m; auto.
 Qed.
@@ -123,7 +126,7 @@ Qed.
 Lemma Forall_upd : forall (P : consumer -> Prop) n f l,
   Forall P l -> (forall x, nth_error l n = Some x -> P x -> P (f x)) -> Forall P (upd n f l).
 Proof.
-  intros P. induction n; destruct l; simpl; intros f' HF Hf; auto.
+  intros P. induction n as [|n IH]; intros f [|x t] HF Hf; simpl; auto.
   - inversion HF; subst. constructor; auto.
   - inversion HF; subst. constructor; auto.
 Qed.
@@ -143,8 +146,8 @@ Proof. intros. unfold getc, setc. simpl. rewrite nth_upd_same; auto. Qed.
 Lemma getc_setc_other : forall s c c' x, c <> c' -> getc (setc s c x) c' = getc s c'.
 Proof. intros. unfold getc, setc. simpl. apply nth_upd_other. auto. Qed.
 
-Lemma getc_map : forall s f l c, f cdefault = cdefault -> nth c (map f l) cdefault = f (nth c l cdefault).
-Proof. intros s f l c Hd. rewrite <- Hd at 1. apply map_nth. Qed.
+Lemma getc_map : forall (f : consumer -> consumer) l c, f cdefault = cdefault -> nth c (map f l) cdefault = f (nth c l cdefault).
+Proof. intros f l c Hd. rewrite <- Hd at 1. apply map_nth. Qed.
 
 Lemma active_nonzero : forall p, is_active p = true -> p <> 0.
 Proof. intros p H Hz. subst. discriminate. Qed.
@@ -152,4 +155,1040 @@ Proof. intros p H Hz. subst. discriminate. Qed.
 Lemma active_cases : forall p, is_active p = true <-> (p = 1 \/ p = 2 \/ p = 3).
 Proof.
   intros p. unfold is_active. rewrite !orb_true_iff, !Z.eqb_eq. tauto.
+Qed.
+
+(* ---------- the staking registry ---------- *)
+Definition reg_ok (reg : kv) : Prop := NoDup (map fst reg) /\ NoDup (map snd reg).
+
+Lemma rbk_in : forall k reg o, reg_by_key k reg = Some o -> In (o, k) reg.
+Proof.
+  intros k reg. induction reg as [|[o' p] t IH]; simpl; intros o H; [discriminate|].
+  destruct (p =? k) eqn:E.
+  - apply Z.eqb_eq in E. inversion H; subst. auto.
+  - right. auto.
+Qed.
+
+Lemma in_rbk : forall k reg o, In (o, k) reg -> reg_by_key k reg <> None.
+Proof.
+  intros k reg. induction reg as [|[o' p] t IH]; simpl; intros o H; [contradiction|].
+  destruct (p =? k) eqn:E; [discriminate|].
+  destruct H as [H|H].
+  - inversion H; subst. rewrite Z.eqb_refl in E. discriminate.
+  - eapply IH; eauto.
+Qed.
+
+Lemma lookup_in : forall o (reg : kv) P, lookup o reg = Some P -> In (o, P) reg.
+Proof.
+  intros o reg. induction reg as [|[o' p] t IH]; simpl; intros P H; [discriminate|].
+  destruct (o' =? o) eqn:E.
+  - apply Z.eqb_eq in E. inversion H; subst. auto.
+  - right. auto.
+Qed.
+
+Lemma in_lookup_nd : forall o (reg : kv) P, NoDup (map fst reg) -> In (o, P) reg -> lookup o reg = Some P.
+Proof.
+  intros o reg. induction reg as [|[o' p] t IH]; simpl; intros P Hnd H; [contradiction|].
+  inversion Hnd as [|? ? Hni Hnd']; subst.
+  destruct H as [H|H].
+  - inversion H; subst. rewrite Z.eqb_refl. reflexivity.
+  - destruct (o' =? o) eqn:E.
+    + apply Z.eqb_eq in E. subst. exfalso. apply Hni. apply in_map_iff. exists (o, P). auto.
+    + auto.
+Qed.
+
+Lemma lookup_none_notin : forall o (reg : kv), lookup o reg = None -> ~ In o (map fst reg).
+Proof.
+  intros o reg. induction reg as [|[o' p] t IH]; simpl; intros H; [tauto|].
+  destruct (o' =? o) eqn:E; [discriminate|].
+  intros [H1|H1].
+  - subst. rewrite Z.eqb_refl in E. discriminate.
+  - apply IH; auto.
+Qed.
+
+Lemma rbk_none_notin : forall k (reg : kv), reg_by_key k reg = None -> ~ In k (map snd reg).
+Proof.
+  intros k reg. induction reg as [|[o' p] t IH]; simpl; intros H; [tauto|].
+  destruct (p =? k) eqn:E; [discriminate|].
+  intros [H1|H1].
+  - subst. rewrite Z.eqb_refl in E. discriminate.
+  - apply IH; auto.
+Qed.
+
+Lemma NoDup_map_filter : forall (A : Type) (g : A -> Z) f (l : list A), NoDup (map g l) -> NoDup (map g (filter f l)).
+Proof.
+  intros A g f l. induction l as [|a t IH]; simpl; intros H; auto.
+  inversion H as [|? ? Hni Hnd]; subst.
+  destruct (f a); simpl; auto.
+  constructor; auto.
+  intros Hin. apply Hni. apply in_map_iff in Hin. destruct Hin as [y [Hy Hin]].
+  apply filter_In in Hin. apply in_map_iff. exists y. tauto.
+Qed.
+
+Lemma reg_ok_remove : forall o reg, reg_ok reg -> reg_ok (remove_key o reg).
+Proof. intros o reg [H1 H2]. split; apply NoDup_map_filter; auto. Qed.
+
+Lemma reg_ok_cons : forall o key reg, reg_ok reg -> lookup o reg = None -> reg_by_key key reg = None -> reg_ok ((o, key) :: reg).
+Proof.
+  intros o key reg [H1 H2] Ho Hk. split; simpl; constructor; auto.
+  - apply lookup_none_notin; auto.
+  - apply rbk_none_notin; auto.
+Qed.
+
+Lemma rbk_remove_mono : forall o k reg, reg_by_key k (remove_key o reg) <> None -> reg_by_key k reg <> None.
+Proof.
+  intros o k reg H. destruct (reg_by_key k (remove_key o reg)) as [o'|] eqn:E; [|congruence].
+  apply rbk_in in E. apply filter_In in E. destruct E as [E _]. eapply in_rbk; eauto.
+Qed.
+
+Lemma reg_own_key : forall reg o k P, reg_ok reg -> reg_by_key k reg = Some o -> lookup o reg = Some P -> k = P.
+Proof.
+  intros reg o k P [H1 _] Hk Ho. apply rbk_in in Hk. apply (in_lookup_nd _ _ _ H1) in Hk. congruence.
+Qed.
+
+(* ---------- the per-consumer invariant ---------- *)
+Record cinv (reg : kv) (x : consumer) : Prop := {
+  J1 : forall k, In k (map snd (c_toprune x)) -> lookup k (c_byaddr x) <> None;
+  J2 : forall k P, In k (map snd (c_toprune x)) -> lookup P (c_assigned x) <> Some k;
+  J3 : NoDup (map snd (c_toprune x));
+  J4 : forall P k, lookup P (c_assigned x) = Some k -> lookup k (c_byaddr x) = Some P;
+  J5 : forall k P, lookup k (c_byaddr x) = Some P ->
+         lookup P (c_assigned x) = Some k \/ In k (map snd (c_toprune x));
+  J6 : is_active (c_phase x) = true ->
+       forall k P, lookup k (c_byaddr x) = Some P -> reg_by_key k reg <> None -> k = P;
+  J8 : c_phase x = 3 \/ c_phase x = 4 -> c_client x = true
+}.
+
+Lemma cinv_default : forall reg, cinv reg cdefault.
+Proof. intros reg. constructor; simpl; intros; try contradiction; try discriminate; try constructor; lia. Qed.
+
+Lemma cinv_fresh : forall reg, cinv reg cfresh.
+Proof. intros reg. constructor; simpl; intros; try contradiction; try discriminate; try constructor; lia. Qed.
+
+Lemma cinv_delete : forall reg x, cinv reg (delete_c x).
+Proof. intros reg x. constructor; simpl; intros; try contradiction; try discriminate; try constructor; lia. Qed.
+
+Lemma cinv_reg_mono : forall reg reg' x,
+  (forall k, reg_by_key k reg' <> None -> reg_by_key k reg <> None) -> cinv reg x -> cinv reg' x.
+Proof.
+  intros reg reg' x Hm [j1 j2 j3 j4 j5 j6 j8]. constructor; auto.
+Qed.
+
+(* same key-related fields and a phase that is not "more active" *)
+Lemma cinv_ext : forall reg x y,
+  c_assigned y = c_assigned x -> c_byaddr y = c_byaddr x -> c_toprune y = c_toprune x ->
+  (is_active (c_phase y) = true -> is_active (c_phase x) = true) ->
+  (c_phase y = 3 \/ c_phase y = 4 -> c_client y = true) ->
+  cinv reg x -> cinv reg y.
+Proof.
+  intros reg x y Ha Hb Ht Hp Hc [j1 j2 j3 j4 j5 j6 j8].
+  constructor; rewrite ?Ha, ?Hb, ?Ht; auto.
+Qed.
+
+Ltac lk_case a b H1 H2 :=
+  destruct (Z.eq_dec a b) as [H1|H2]; [first [subst a | subst b | rewrite H1 in *]|].
+Ltac lkh H :=
+  let e := fresh "e" in let ne := fresh "ne" in
+  match type of H with
+  | context [lookup ?a (set_key ?b _ _)] =>
+    lk_case a b e ne; [rewrite lookup_set_same in H | rewrite lookup_set_other in H by exact ne]
+  | context [lookup ?a (remove_key ?b _)] =>
+    lk_case a b e ne; [rewrite lookup_remove_same in H | rewrite lookup_remove_other in H by exact ne]
+  end.
+Ltac lkg :=
+  let e := fresh "e" in let ne := fresh "ne" in
+  match goal with
+  | |- context [lookup ?a (set_key ?b _ _)] =>
+    lk_case a b e ne; [rewrite lookup_set_same | rewrite lookup_set_other by exact ne]
+  | |- context [lookup ?a (remove_key ?b _)] =>
+    lk_case a b e ne; [rewrite lookup_remove_same | rewrite lookup_remove_other by exact ne]
+  end.
+
+(* ---------- AssignConsumerKey ---------- *)
+Definition assign_b1 (P : Z) (x : consumer) : kv :=
+  match lookup P (c_assigned x) with
+  | Some old => if c_phase x =? 3 then c_byaddr x else remove_key old (c_byaddr x)
+  | None => c_byaddr x
+  end.
+Definition assign_t1 (ts P : Z) (x : consumer) : kv :=
+  match lookup P (c_assigned x) with
+  | Some old => if c_phase x =? 3 then tp_insert ts old (c_toprune x) else c_toprune x
+  | None => c_toprune x
+  end.
+
+Lemma assign_c_ok_inv : forall reg now unb o P k x x',
+  assign_c reg now unb o P k x = (x', 0) ->
+  is_active (c_phase x) = true /\
+  (forall o', reg_by_key k reg = Some o' -> o' = o /\ lookup P (c_assigned x) <> None) /\
+  lookup k (c_byaddr x) = None /\
+  x' = set_keys x (set_key P k (c_assigned x)) (set_key k P (assign_b1 P x)) (assign_t1 (now + unb) P x).
+Proof.
+  intros reg now unb o P k x x' H. unfold assign_c in H.
+  destruct (is_active (c_phase x)) eqn:Ha; simpl in H; [|inversion H].
+  split; [reflexivity|].
+  assert (Hchk : forall o', reg_by_key k reg = Some o' -> o' = o /\ lookup P (c_assigned x) <> None).
+  { intros o' Ho'. rewrite Ho' in H.
+    destruct (o' =? o) eqn:Eo; simpl in H; [|inversion H].
+    apply Z.eqb_eq in Eo. split; auto.
+    destruct (lookup P (c_assigned x)); [discriminate|]. simpl in H. inversion H. }
+  split; [exact Hchk|].
+  assert (H' : (match lookup k (c_byaddr x) with
+                | Some _ => (x, E_INUSE)
+                | None => (set_keys x (set_key P k (c_assigned x)) (set_key k P (assign_b1 P x)) (assign_t1 (now + unb) P x), 0)
+                end) = (x', 0)).
+  { destruct (reg_by_key k reg) as [o'|] eqn:Er.
+    - destruct (Hchk o' eq_refl) as [-> Hl]. rewrite Z.eqb_refl in H. simpl in H.
+      destruct (lookup P (c_assigned x)) as [old|] eqn:El; [|congruence]. simpl in H.
+      unfold assign_b1, assign_t1. rewrite El.
+      destruct (lookup k (c_byaddr x)); [exact H|].
+      destruct (c_phase x =? 3); exact H.
+    - simpl in H. unfold assign_b1, assign_t1.
+      destruct (lookup k (c_byaddr x)); [exact H|].
+      destruct (lookup P (c_assigned x)); [destruct (c_phase x =? 3)|]; exact H. }
+  destruct (lookup k (c_byaddr x)); [inversion H'|].
+  split; [reflexivity|]. inversion H'. reflexivity.
+Qed.
+
+Lemma cinv_assign : forall reg now unb o P k x x',
+  reg_ok reg -> lookup o reg = Some P -> cinv reg x ->
+  assign_c reg now unb o P k x = (x', 0) -> cinv reg x'.
+Proof.
+  intros reg now unb o P k x x' Hreg Ho [j1 j2 j3 j4 j5 j6 j8] H.
+  apply assign_c_ok_inv in H. destruct H as [Ha [Hchk [Hk ->]]].
+  assert (Hknt : ~ In k (map snd (c_toprune x))) by (intros Hin; apply (j1 _ Hin); exact Hk).
+  assert (Hreg6 : reg_by_key k reg <> None -> k = P).
+  { intros Hr. destruct (reg_by_key k reg) as [o'|] eqn:Er; [|congruence].
+    destruct (Hchk o' eq_refl) as [-> _]. eapply reg_own_key; eauto. }
+  unfold assign_b1, assign_t1.
+  destruct (lookup P (c_assigned x)) as [old|] eqn:Eold.
+  - assert (Hob : lookup old (c_byaddr x) = Some P) by (apply j4; exact Eold).
+    assert (Hok : old <> k) by congruence.
+    assert (Hont : ~ In old (map snd (c_toprune x))) by (intros Hin; apply (j2 _ P Hin); exact Eold).
+    destruct (c_phase x =? 3) eqn:Eph.
+    + (* launched: old key awaits pruning *)
+      constructor; cbn [c_toprune c_byaddr c_assigned c_phase c_client set_keys].
+      * intros k0 Hin. apply tp_insert_keys_in in Hin. lkg; [discriminate|].
+        destruct Hin as [->|Hin]; [rewrite Hob; discriminate | apply j1; auto].
+      * intros k0 P0 Hin. apply tp_insert_keys_in in Hin. lkg.
+        -- intros Heq. inversion Heq; subst k0. destruct Hin as [Hin|Hin]; [congruence|contradiction].
+        -- destruct Hin as [->|Hin]; [|apply j2; auto].
+           intros Heq. apply j4 in Heq. congruence.
+      * apply tp_insert_nodup; auto.
+      * intros P0 k0 Hl. lkh Hl.
+        -- inversion Hl; subst k0. apply lookup_set_same.
+        -- apply j4 in Hl. rewrite lookup_set_other; [exact Hl|]. intros e'. rewrite e' in Hl. congruence.
+      * intros k0 P0 Hl. lkh Hl.
+        -- inversion Hl; subst P0. left. apply lookup_set_same.
+        -- destruct (j5 _ _ Hl) as [Hc|Hc].
+           ++ destruct (Z.eq_dec P0 P) as [->|Hne].
+              ** right. apply tp_insert_keys_in. left. congruence.
+              ** left. rewrite lookup_set_other; auto.
+           ++ right. apply tp_insert_keys_in. auto.
+      * intros _ k0 P0 Hl Hr. lkh Hl.
+        -- inversion Hl; subst P0. auto.
+        -- apply (j6 Ha k0 P0); auto.
+      * exact j8.
+    + (* not launched: old reverse entry dropped at once *)
+      constructor; cbn [c_toprune c_byaddr c_assigned c_phase c_client set_keys].
+      * intros k0 Hin. lkg; [discriminate|].
+        rewrite lookup_remove_other; [apply j1; auto|]. intros ->. apply (j2 _ P Hin). exact Eold.
+      * intros k0 P0 Hin. lkg.
+        -- intros Heq. inversion Heq; subst k0. contradiction.
+        -- apply j2; auto.
+      * exact j3.
+      * intros P0 k0 Hl. lkh Hl.
+        -- inversion Hl; subst k0. apply lookup_set_same.
+        -- apply j4 in Hl. rewrite lookup_set_other; [|intros e'; rewrite e' in Hl; congruence].
+           rewrite lookup_remove_other; [exact Hl|]. intros e'. rewrite e' in Hl. congruence.
+      * intros k0 P0 Hl. lkh Hl.
+        -- inversion Hl; subst P0. left. apply lookup_set_same.
+        -- apply lookup_remove_some in Hl. destruct Hl as [Hl Hne].
+           destruct (j5 _ _ Hl) as [Hc|Hc]; [|right; exact Hc].
+           left. rewrite lookup_set_other; [exact Hc|]. intros ->. congruence.
+      * intros _ k0 P0 Hl Hr. lkh Hl.
+        -- inversion Hl; subst P0. auto.
+        -- apply lookup_remove_some in Hl. destruct Hl as [Hl _]. apply (j6 Ha k0 P0); auto.
+      * exact j8.
+  - constructor; cbn [c_toprune c_byaddr c_assigned c_phase c_client set_keys].
+    + intros k0 Hin. lkg; [discriminate|]. apply j1; auto.
+    + intros k0 P0 Hin. lkg.
+      * intros Heq. inversion Heq; subst k0. contradiction.
+      * apply j2; auto.
+    + exact j3.
+    + intros P0 k0 Hl. lkh Hl.
+      * inversion Hl; subst k0. apply lookup_set_same.
+      * apply j4 in Hl. rewrite lookup_set_other; [exact Hl|]. intros e'. rewrite e' in Hl. congruence.
+    + intros k0 P0 Hl. lkh Hl.
+      * inversion Hl; subst P0. left. apply lookup_set_same.
+      * destruct (j5 _ _ Hl) as [Hc|Hc]; [|right; exact Hc].
+        left. rewrite lookup_set_other; [exact Hc|]. intros ->. congruence.
+    + intros _ k0 P0 Hl Hr. lkh Hl.
+      * inversion Hl; subst P0. auto.
+      * apply (j6 Ha k0 P0); auto.
+    + exact j8.
+Qed.
+
+Lemma cinv_add_optin : forall reg P x, cinv reg x -> cinv reg (add_optin P x).
+Proof.
+  intros reg P x H. apply cinv_ext with (x := x); auto.
+  simpl. destruct H; auto.
+Qed.
+
+Lemma cinv_optin : forall reg now unb o P k x x',
+  reg_ok reg -> lookup o reg = Some P -> cinv reg x ->
+  optin_c reg now unb o P k x = (x', 0) -> cinv reg x'.
+Proof.
+  intros reg now unb o P k x x' Hreg Ho Hc H. unfold optin_c in H.
+  destruct (is_active (c_phase x)); simpl in H; [|inversion H].
+  destruct k as [k|].
+  - apply (cinv_assign reg now unb o P k (add_optin P x) x' Hreg Ho (cinv_add_optin reg P x Hc) H).
+  - inversion H; subst. apply cinv_add_optin; auto.
+Qed.
+
+(* ---------- AfterValidatorRemoved ---------- *)
+Lemma cinv_remove_val : forall reg P x, cinv reg x -> cinv reg (remove_val_c P x).
+Proof.
+  intros reg P x [j1 j2 j3 j4 j5 j6 j8]. unfold remove_val_c.
+  destruct (lookup P (c_assigned x)) as [k|] eqn:Ek; [|constructor; auto].
+  assert (Hkb : lookup k (c_byaddr x) = Some P) by (apply j4; exact Ek).
+  constructor; cbn [c_toprune c_byaddr c_assigned c_phase c_client set_keys].
+  - intros k0 Hin. rewrite lookup_remove_other; [apply j1; auto|].
+    intros ->. apply (j2 _ P Hin). exact Ek.
+  - intros k0 P0 Hin Hl. apply lookup_remove_some in Hl. destruct Hl as [Hl _]. apply (j2 _ _ Hin Hl).
+  - exact j3.
+  - intros P0 k0 Hl. apply lookup_remove_some in Hl. destruct Hl as [Hl Hne].
+    apply j4 in Hl. rewrite lookup_remove_other; [exact Hl|]. intros e'. rewrite e' in Hl. congruence.
+  - intros k0 P0 Hl. apply lookup_remove_some in Hl. destruct Hl as [Hl Hne].
+    destruct (j5 _ _ Hl) as [Hc|Hc]; [|right; exact Hc].
+    left. rewrite lookup_remove_other; [exact Hc|]. intros ->. congruence.
+  - intros Ha k0 P0 Hl Hr. apply lookup_remove_some in Hl. destruct Hl as [Hl _]. apply (j6 Ha k0 P0); auto.
+  - exact j8.
+Qed.
+
+(* ---------- PruneKeyAssignments ---------- *)
+Lemma lookup_remove_keys_some : forall ks k l v,
+  lookup k (remove_keys ks l) = Some v -> lookup k l = Some v /\ ~ In k ks.
+Proof.
+  intros ks k l v H. destruct (in_dec Z.eq_dec k ks) as [Hin|Hn].
+  - rewrite lookup_remove_keys_in in H; auto. discriminate.
+  - rewrite lookup_remove_keys_notin in H; auto.
+Qed.
+
+Lemma due_keys_in : forall now (tp : kv) k, In k (map snd (filter (due now) tp)) -> exists ts, In (ts, k) tp /\ ts <= now.
+Proof.
+  intros now tp k H. apply in_map_iff in H. destruct H as [[ts k'] [Hs Hin]]. simpl in Hs. subst k'.
+  apply filter_In in Hin. destruct Hin as [Hin Hd]. unfold due in Hd. simpl in Hd. apply Z.leb_le in Hd.
+  exists ts. auto.
+Qed.
+
+Lemma notdue_keys_in : forall now (tp : kv) k,
+  In k (map snd (filter (fun e => negb (due now e)) tp)) -> exists ts, In (ts, k) tp /\ now < ts.
+Proof.
+  intros now tp k H. apply in_map_iff in H. destruct H as [[ts k'] [Hs Hin]]. simpl in Hs. subst k'.
+  apply filter_In in Hin. destruct Hin as [Hin Hd]. unfold due in Hd. simpl in Hd.
+  apply negb_true_iff in Hd. apply Z.leb_gt in Hd. exists ts. auto.
+Qed.
+
+Lemma cinv_prune : forall reg now x, cinv reg x -> cinv reg (prune_c now x).
+Proof.
+  intros reg now x [j1 j2 j3 j4 j5 j6 j8]. unfold prune_c.
+  constructor; cbn [c_toprune c_byaddr c_assigned c_phase c_client set_keys].
+  - intros k0 Hin. apply notdue_keys_in in Hin. destruct Hin as [ts [Hin Hlt]].
+    rewrite lookup_remove_keys_notin.
+    + apply j1. eapply in_keys; eauto.
+    + intros Hd. apply due_keys_in in Hd. destruct Hd as [ts' [Hin' Hle]].
+      assert (ts = ts') by (eapply nodup_keys_unique; eauto). lia.
+  - intros k0 P0 Hin. apply notdue_keys_in in Hin. destruct Hin as [ts [Hin _]].
+    apply j2. eapply in_keys; eauto.
+  - apply NoDup_map_filter. exact j3.
+  - intros P0 k0 Hl. rewrite lookup_remove_keys_notin; [apply j4; exact Hl|].
+    intros Hd. apply due_keys_in in Hd. destruct Hd as [ts' [Hin' _]].
+    apply (j2 k0 P0); [eapply in_keys; eauto | exact Hl].
+  - intros k0 P0 Hl. apply lookup_remove_keys_some in Hl. destruct Hl as [Hl Hn].
+    destruct (j5 _ _ Hl) as [Hc|Hc]; [left; exact Hc|]. right.
+    apply in_map_iff in Hc. destruct Hc as [[ts k'] [Hs Hin]]. simpl in Hs. subst k'.
+    apply in_map_iff. exists (ts, k0). split; auto. apply filter_In. split; auto.
+    destruct (due now (ts, k0)) eqn:Ed; auto. exfalso. apply Hn.
+    apply in_map_iff. exists (ts, k0). split; auto. apply filter_In. auto.
+  - intros Ha k0 P0 Hl Hr. apply lookup_remove_keys_some in Hl. destruct Hl as [Hl _]. apply (j6 Ha k0 P0); auto.
+  - exact j8.
+Qed.
+
+(* ---------- AfterValidatorCreated ---------- *)
+Lemma key_in_use_false : forall key l x,
+  key_in_use key l = false -> In x l -> is_active (c_phase x) = true -> lookup key (c_byaddr x) = None.
+Proof.
+  intros key l x H Hin Ha. unfold key_in_use in H.
+  destruct (lookup key (c_byaddr x)) eqn:E; auto.
+  assert (existsb (fun x => is_active (c_phase x) && match lookup key (c_byaddr x) with Some _ => true | None => false end) l = true).
+  { apply existsb_exists. exists x. split; auto. rewrite Ha, E. reflexivity. }
+  congruence.
+Qed.
+
+Lemma cinv_create : forall reg o key x,
+  cinv reg x -> (is_active (c_phase x) = true -> lookup key (c_byaddr x) = None) -> cinv ((o, key) :: reg) x.
+Proof.
+  intros reg o key x [j1 j2 j3 j4 j5 j6 j8] Hk. constructor; auto.
+  intros Ha k0 P0 Hl Hr. simpl in Hr. destruct (key =? k0) eqn:E.
+  - apply Z.eqb_eq in E. subst k0. rewrite (Hk Ha) in Hl. discriminate.
+  - apply (j6 Ha k0 P0); auto.
+Qed.
+
+(* ---------- the state invariant ---------- *)
+Definition sinv (s : state) : Prop := reg_ok (s_reg s) /\ Forall (cinv (s_reg s)) (s_cons s).
+
+Lemma sinv_getc : forall s c, sinv s -> cinv (s_reg s) (getc s c).
+Proof.
+  intros s c [_ HF]. unfold getc. destruct (nth_in_or_default c (s_cons s) cdefault) as [Hin|Hd].
+  - rewrite Forall_forall in HF. auto.
+  - rewrite Hd. apply cinv_default.
+Qed.
+
+Lemma sinv_setc : forall s c x, sinv s -> cinv (s_reg s) x -> sinv (setc s c x).
+Proof.
+  intros s c x [Hr HF] Hx. split; simpl; auto.
+  apply Forall_upd; auto.
+Qed.
+
+Lemma sinv_init : forall unb, sinv (init unb).
+Proof. intros. split; simpl; [split; constructor | constructor]. Qed.
+
+Lemma step_sinv : forall s a, sinv s -> sinv (fst (step s a)).
+Proof.
+  intros s a Hs. pose proof Hs as [Hreg HF].
+  destruct a as [c o k sok|c o k sok|o key|o| |c|c|c ok|c| | |dt|c k]; simpl.
+  - (* assign *)
+    destruct sok; simpl; auto.
+    unfold reg_by_oper. destruct (lookup o (s_reg s)) as [P|] eqn:Eo; simpl; auto.
+    destruct (assign_c (s_reg s) (s_now s) (s_unb s) o P k (getc s c)) as [x e] eqn:Ea.
+    destruct (e =? 0) eqn:Ee; simpl; auto. apply Z.eqb_eq in Ee. subst e.
+    apply sinv_setc; auto. eapply cinv_assign; eauto. apply sinv_getc; auto.
+  - (* opt in *)
+    destruct sok; simpl; auto.
+    unfold reg_by_oper. destruct (lookup o (s_reg s)) as [P|] eqn:Eo; simpl; auto.
+    destruct (optin_c (s_reg s) (s_now s) (s_unb s) o P k (getc s c)) as [x e] eqn:Ea.
+    destruct (e =? 0) eqn:Ee; simpl; auto. apply Z.eqb_eq in Ee. subst e.
+    apply sinv_setc; auto. eapply cinv_optin; eauto. apply sinv_getc; auto.
+  - (* create validator *)
+    unfold reg_by_oper. destruct (lookup o (s_reg s)) eqn:Eo; simpl; auto.
+    destruct (reg_by_key key (s_reg s)) eqn:Ek; simpl; auto.
+    destruct (key_in_use key (s_cons s)) eqn:Eu; simpl; auto.
+    split; simpl.
+    + apply reg_ok_cons; auto.
+    + rewrite Forall_forall in *. intros x Hin. apply cinv_create; auto.
+      intros Ha. eapply key_in_use_false; eauto.
+  - (* remove validator *)
+    unfold reg_by_oper. destruct (lookup o (s_reg s)) as [P|] eqn:Eo; simpl; auto.
+    split; simpl.
+    + apply reg_ok_remove; auto.
+    + rewrite Forall_forall in *. intros x Hin. apply in_map_iff in Hin. destruct Hin as [y [<- Hin]].
+      apply cinv_reg_mono with (reg := s_reg s); [intros k0; apply rbk_remove_mono|].
+      apply cinv_remove_val. auto.
+  - (* register *)
+    split; simpl; auto. apply Forall_app. split; auto. constructor; [apply cinv_fresh|constructor].
+  - (* initialize *)
+    destruct (c_phase (getc s c) =? 1) eqn:E; simpl; auto. apply Z.eqb_eq in E.
+    apply sinv_setc; auto. eapply cinv_ext; [..|apply (sinv_getc s c Hs)]; simpl; auto.
+    + intros _. rewrite E. reflexivity.
+    + intros [H|H]; discriminate.
+  - (* launch *)
+    destruct (c_phase (getc s c) =? 2) eqn:E; simpl; auto. apply Z.eqb_eq in E.
+    apply sinv_setc; auto. eapply cinv_ext; [..|apply (sinv_getc s c Hs)]; simpl; auto.
+    intros _. rewrite E. reflexivity.
+  - (* stop *)
+    destruct (c_phase (getc s c) =? 0) eqn:E0; simpl; auto.
+    destruct ok; simpl; auto.
+    destruct (c_phase (getc s c) =? 3) eqn:E; simpl; auto. apply Z.eqb_eq in E.
+    apply sinv_setc; auto. pose proof (sinv_getc s c Hs) as Hc.
+    eapply cinv_ext; [..|exact Hc]; simpl; auto.
+    + intros H. discriminate.
+    + intros _. destruct Hc. auto.
+  - (* delete *)
+    destruct (c_phase (getc s c) =? 4) eqn:E; simpl; auto.
+    apply sinv_setc; auto. apply cinv_delete.
+  - (* begin block *)
+    split; simpl; auto. rewrite Forall_forall in *. intros x Hin.
+    apply in_map_iff in Hin. destruct Hin as [y [<- Hin]].
+    destruct (removal_due (s_now s) y); [apply cinv_delete|auto].
+  - (* end block *)
+    split; simpl; auto. rewrite Forall_forall in *. intros x Hin.
+    apply in_map_iff in Hin. destruct Hin as [y [<- Hin]].
+    destruct (c_client y); [apply cinv_prune|]; auto.
+  - (* advance *) exact Hs.
+  - (* slash *)
+    destruct (c_phase (getc s c) =? 3); simpl; auto.
+    destruct (reg_by_key (resolve s c k) (s_reg s)); simpl; auto.
+    destruct (mem z (s_jailed s)); simpl; auto.
+Qed.
+
+Lemma exec_sinv : forall ops s, sinv s -> sinv (exec ops s).
+Proof.
+  induction ops as [|a r IH]; intros s Hs; simpl; auto.
+  apply IH. apply step_sinv. exact Hs.
+Qed.
+
+Lemma reach_sinv : forall unb ops, sinv (exec ops (init unb)).
+Proof. intros. apply exec_sinv. apply sinv_init. Qed.
+
+(* ================= C05 ================= *)
+Lemma in_rbk_nd : forall k reg o, NoDup (map snd reg) -> In (o, k) reg -> reg_by_key k reg = Some o.
+Proof.
+  intros k reg. induction reg as [|[o' p] t IH]; simpl; intros o Hnd H; [contradiction|].
+  inversion Hnd as [|? ? Hni Hnd']; subst.
+  destruct H as [H|H].
+  - inversion H; subst. rewrite Z.eqb_refl. reflexivity.
+  - destruct (p =? k) eqn:E.
+    + apply Z.eqb_eq in E. subst. exfalso. apply Hni. apply in_map_iff. exists (o, k). auto.
+    + auto.
+Qed.
+
+(* "key k is associated with the validator whose provider key is P, on consumer c" *)
+Definition assoc (s : state) (c : nat) (k P : Z) : Prop :=
+  lookup P (c_assigned (getc s c)) = Some k \/
+  lookup k (c_byaddr (getc s c)) = Some P \/
+  (k = P /\ reg_by_key P (s_reg s) <> None).
+(* the part of the relation held in the consumer's own stores *)
+Definition assoc_store (s : state) (c : nat) (k P : Z) : Prop :=
+  lookup P (c_assigned (getc s c)) = Some k \/ lookup k (c_byaddr (getc s c)) = Some P.
+
+Lemma injective_active : forall s c k P1 P2,
+  sinv s -> is_active (c_phase (getc s c)) = true -> assoc s c k P1 -> assoc s c k P2 -> P1 = P2.
+Proof.
+  intros s c k P1 P2 Hs Ha H1 H2. pose proof (sinv_getc s c Hs) as [j1 j2 j3 j4 j5 j6 j8].
+  assert (N : forall P, assoc s c k P -> lookup k (c_byaddr (getc s c)) = Some P \/ (k = P /\ reg_by_key P (s_reg s) <> None)).
+  { intros P [H|[H|H]]; auto. }
+  apply N in H1. apply N in H2.
+  destruct H1 as [H1|[E1 R1]], H2 as [H2|[E2 R2]]; try congruence.
+  - subst P2. symmetry. apply (j6 Ha k P1); auto.
+  - subst P1. apply (j6 Ha k P2); auto.
+Qed.
+
+Lemma injective_store : forall s c k P1 P2,
+  sinv s -> assoc_store s c k P1 -> assoc_store s c k P2 -> P1 = P2.
+Proof.
+  intros s c k P1 P2 Hs H1 H2. pose proof (sinv_getc s c Hs) as [j1 j2 j3 j4 j5 j6 j8].
+  assert (N : forall P, assoc_store s c k P -> lookup k (c_byaddr (getc s c)) = Some P).
+  { intros P [H|H]; auto. }
+  apply N in H1. apply N in H2. congruence.
+Qed.
+
+Lemma injective_operators : forall s c k o1 o2 P1 P2,
+  sinv s -> is_active (c_phase (getc s c)) = true ->
+  reg_by_oper o1 (s_reg s) = Some P1 -> reg_by_oper o2 (s_reg s) = Some P2 ->
+  assoc s c k P1 -> assoc s c k P2 -> o1 = o2.
+Proof.
+  intros s c k o1 o2 P1 P2 Hs Ha Ho1 Ho2 H1 H2.
+  assert (P1 = P2) by (eapply injective_active; eauto). subst P2.
+  destruct Hs as [[_ Hnd] _]. unfold reg_by_oper in *.
+  apply lookup_in in Ho1. apply lookup_in in Ho2.
+  apply (in_rbk_nd _ _ _ Hnd) in Ho1. apply (in_rbk_nd _ _ _ Hnd) in Ho2. congruence.
+Qed.
+
+(* a failing step changes nothing (SDK transaction rollback) *)
+Lemma step_err_unchanged : forall s a, snd (step s a) <> 0 -> fst (step s a) = s.
+Proof.
+  intros s a. destruct a as [c o k sok|c o k sok|o key|o| |c|c|c ok|c| | |dt|c k]; simpl.
+  - destruct sok; simpl; auto. destruct (reg_by_oper o (s_reg s)); simpl; auto.
+    destruct (assign_c _ _ _ _ _ _ _) as [x e]. destruct (e =? 0) eqn:E; simpl; auto. congruence.
+  - destruct sok; simpl; auto. destruct (reg_by_oper o (s_reg s)); simpl; auto.
+    destruct (optin_c _ _ _ _ _ _ _) as [x e]. destruct (e =? 0) eqn:E; simpl; auto. congruence.
+  - destruct (reg_by_oper o (s_reg s)); simpl; auto. destruct (reg_by_key key (s_reg s)); simpl; auto.
+    destruct (key_in_use key (s_cons s)); simpl; auto. congruence.
+  - destruct (reg_by_oper o (s_reg s)); simpl; auto. congruence.
+  - congruence.
+  - destruct (c_phase (getc s c) =? 1); simpl; auto. congruence.
+  - destruct (c_phase (getc s c) =? 2); simpl; auto. congruence.
+  - destruct (c_phase (getc s c) =? 0); simpl; auto. destruct ok; simpl; auto.
+    destruct (c_phase (getc s c) =? 3); simpl; auto. congruence.
+  - destruct (c_phase (getc s c) =? 4); simpl; auto. congruence.
+  - congruence.
+  - congruence.
+  - congruence.
+  - destruct (c_phase (getc s c) =? 3); simpl; auto.
+    destruct (reg_by_key _ _); simpl; try congruence. destruct (mem _ _); simpl; congruence.
+Qed.
+
+Definition bad_c (reg : kv) (o P k : Z) (x : consumer) : Prop :=
+  (exists o', reg_by_key k reg = Some o' /\ o' <> o) \/
+  (exists P', lookup P' (c_assigned x) = Some k) \/
+  In k (map snd (c_toprune x)) \/
+  lookup k (c_byaddr x) <> None \/
+  (reg_by_key k reg = Some o /\ lookup P (c_assigned x) = None).
+
+Lemma assign_c_rejects : forall reg now unb o P k x,
+  cinv reg x -> bad_c reg o P k x -> snd (assign_c reg now unb o P k x) <> 0.
+Proof.
+  intros reg now unb o P k x [j1 j2 j3 j4 j5 j6 j8] Hbad He.
+  destruct (assign_c reg now unb o P k x) as [x' e] eqn:Ea. simpl in He. subst e.
+  apply assign_c_ok_inv in Ea. destruct Ea as [Ha [Hchk [Hk _]]].
+  destruct Hbad as [[o' [Hr Hne]]|[[P' Hl]|[Hin|[Hb|[Hr Hn]]]]].
+  - destruct (Hchk o' Hr). congruence.
+  - apply j4 in Hl. congruence.
+  - apply (j1 _ Hin). exact Hk.
+  - congruence.
+  - destruct (Hchk o Hr). congruence.
+Qed.
+
+(* the conditions under which C05 demands a rejection, on state level *)
+Definition must_reject (s : state) (c : nat) (o k : Z) : Prop :=
+  (exists o', reg_by_key k (s_reg s) = Some o' /\ o' <> o) \/
+  (exists P', lookup P' (c_assigned (getc s c)) = Some k) \/
+  In k (map snd (c_toprune (getc s c))) \/
+  lookup k (c_byaddr (getc s c)) <> None \/
+  (reg_by_key k (s_reg s) = Some o /\
+   forall P, reg_by_oper o (s_reg s) = Some P -> lookup P (c_assigned (getc s c)) = None).
+
+Lemma must_reject_bad : forall s c o P k, must_reject s c o k -> reg_by_oper o (s_reg s) = Some P ->
+  bad_c (s_reg s) o P k (getc s c).
+Proof.
+  intros s c o P k H Ho. unfold bad_c. destruct H as [H|[H|[H|[H|[H1 H2]]]]]; auto.
+  right. right. right. right. auto.
+Qed.
+
+Lemma reject_assign : forall s c o k sok, sinv s -> must_reject s c o k ->
+  fst (step s (OAssign c o k sok)) = s /\ snd (step s (OAssign c o k sok)) <> 0.
+Proof.
+  intros s c o k sok Hs Hb.
+  assert (He : snd (step s (OAssign c o k sok)) <> 0).
+  { simpl. destruct sok; simpl; [|discriminate].
+    destruct (reg_by_oper o (s_reg s)) as [P|] eqn:Eo; simpl; [|discriminate].
+    pose proof (assign_c_rejects (s_reg s) (s_now s) (s_unb s) o P k (getc s c) (sinv_getc s c Hs)
+                  (must_reject_bad s c o P k Hb Eo)) as Hr.
+    destruct (assign_c _ _ _ _ _ _ _) as [x e]. simpl in Hr.
+    destruct (e =? 0) eqn:E; simpl; auto. apply Z.eqb_eq in E. congruence. }
+  split; auto. apply step_err_unchanged; auto.
+Qed.
+
+Lemma reject_optin : forall s c o k sok, sinv s -> must_reject s c o k ->
+  fst (step s (OOptIn c o (Some k) sok)) = s /\ snd (step s (OOptIn c o (Some k) sok)) <> 0.
+Proof.
+  intros s c o k sok Hs Hb.
+  assert (He : snd (step s (OOptIn c o (Some k) sok)) <> 0).
+  { simpl. destruct sok; simpl; [|discriminate].
+    destruct (reg_by_oper o (s_reg s)) as [P|] eqn:Eo; simpl; [|discriminate].
+    unfold optin_c. destruct (is_active (c_phase (getc s c))); simpl; [|discriminate].
+    pose proof (assign_c_rejects (s_reg s) (s_now s) (s_unb s) o P k (add_optin P (getc s c))
+                  (cinv_add_optin _ P _ (sinv_getc s c Hs))
+                  (must_reject_bad s c o P k Hb Eo)) as Hr.
+    destruct (assign_c _ _ _ _ _ _ _) as [x e]. simpl in Hr.
+    destruct (e =? 0) eqn:E; simpl; auto. apply Z.eqb_eq in E. congruence. }
+  split; auto. apply step_err_unchanged; auto.
+Qed.
+
+Definition known_on (x : consumer) (key : Z) : Prop :=
+  lookup key (c_byaddr x) <> None \/ (exists P, lookup P (c_assigned x) = Some key) \/ In key (map snd (c_toprune x)).
+
+Lemma reject_create : forall s o key c, sinv s ->
+  is_active (c_phase (getc s c)) = true -> known_on (getc s c) key ->
+  fst (step s (OCreateVal o key)) = s /\ snd (step s (OCreateVal o key)) <> 0.
+Proof.
+  intros s o key c Hs Ha Hk.
+  assert (He : snd (step s (OCreateVal o key)) <> 0).
+  { pose proof (sinv_getc s c Hs) as [j1 j2 j3 j4 j5 j6 j8].
+    assert (Hb : lookup key (c_byaddr (getc s c)) <> None).
+    { destruct Hk as [H|[[P H]|H]]; auto. apply j4 in H. congruence. }
+    assert (Hu : key_in_use key (s_cons s) = true).
+    { unfold key_in_use. apply existsb_exists. exists (getc s c). split.
+      - unfold getc. apply nth_In. apply phase_in_range. apply active_nonzero. exact Ha.
+      - rewrite Ha. destruct (lookup key (c_byaddr (getc s c))); [reflexivity|congruence]. }
+    simpl. destruct (reg_by_oper o (s_reg s)); simpl; [discriminate|].
+    destruct (reg_by_key key (s_reg s)); simpl; [discriminate|].
+    rewrite Hu. simpl. discriminate. }
+  split; auto. apply step_err_unchanged; auto.
+Qed.
+
+Lemma store_invariant : forall s c k P, sinv s ->
+  lookup k (c_byaddr (getc s c)) = Some P ->
+  lookup P (c_assigned (getc s c)) = Some k \/ In k (map snd (c_toprune (getc s c))).
+Proof. intros s c k P Hs H. destruct (sinv_getc s c Hs). auto. Qed.
+
+(* ================= C06 ================= *)
+(* does action a name key k in an assignment on consumer c? *)
+Definition names (a : op) (c : nat) (k : Z) : bool :=
+  match a with
+  | OAssign c' _ k' _ => Nat.eqb c' c && (k' =? k)
+  | OOptIn c' _ (Some k') _ => Nat.eqb c' c && (k' =? k)
+  | _ => false
+  end.
+
+Definition keyeq (x1 x : consumer) : Prop :=
+  c_assigned x1 = c_assigned x /\ c_byaddr x1 = c_byaddr x /\ c_toprune x1 = c_toprune x /\
+  c_client x1 = c_client x /\ c_phase x1 = c_phase x.
+
+(* what one step can do to one consumer record *)
+Inductive ctrans (s : state) (a : op) (c : nat) : consumer -> consumer -> Prop :=
+| ct_same x : ctrans s a c x x
+| ct_assign x x1 x' o P k : keyeq x1 x -> lookup o (s_reg s) = Some P -> names a c k = true ->
+    assign_c (s_reg s) (s_now s) (s_unb s) o P k x1 = (x', 0) -> ctrans s a c x x'
+| ct_remove x P : ctrans s a c x (remove_val_c P x)
+| ct_fields x x' : c_assigned x' = c_assigned x -> c_byaddr x' = c_byaddr x -> c_toprune x' = c_toprune x ->
+    (c_client x = true -> c_client x' = true) -> ctrans s a c x x'
+| ct_delete x : ctrans s a c x (delete_c x)
+| ct_prune x : a = OEndBlock -> c_client x = true -> ctrans s a c x (prune_c (s_now s) x)
+| ct_fresh : ctrans s a c cdefault cfresh.
+
+Lemma keyeq_refl : forall x, keyeq x x.
+Proof. intros x. unfold keyeq. auto. Qed.
+
+Lemma keyeq_optin : forall P x, keyeq (add_optin P x) x.
+Proof. intros P x. unfold keyeq. simpl. auto. Qed.
+
+Lemma step_ctrans : forall s a c, ctrans s a c (getc s c) (getc (fst (step s a)) c).
+Proof.
+  intros s a c.
+  assert (SET : forall c' x', c_phase (getc s c') <> 0 ->
+            (c' = c -> ctrans s a c (getc s c) x') -> ctrans s a c (getc s c) (getc (setc s c' x') c)).
+  { intros c' x' Hph Hc. destruct (Nat.eq_dec c' c) as [->|Hne].
+    - rewrite getc_setc_same; auto. apply phase_in_range; auto.
+    - rewrite getc_setc_other; auto. apply ct_same. }
+  destruct a as [c' o k sok|c' o k sok|o key|o| |c'|c'|c' ok|c'| | |dt|c' k]; simpl.
+  - destruct sok; simpl; [|apply ct_same].
+    unfold reg_by_oper. destruct (lookup o (s_reg s)) as [P|] eqn:Eo; simpl; [|apply ct_same].
+    destruct (assign_c (s_reg s) (s_now s) (s_unb s) o P k (getc s c')) as [x e] eqn:Ea.
+    destruct (e =? 0) eqn:Ee; simpl; [|apply ct_same]. apply Z.eqb_eq in Ee. subst e.
+    pose proof (assign_c_ok_inv _ _ _ _ _ _ _ _ Ea) as [Ha _].
+    apply SET; [apply active_nonzero; auto|]. intros ->.
+    eapply ct_assign; [apply keyeq_refl|exact Eo| |exact Ea]. simpl. rewrite Nat.eqb_refl, Z.eqb_refl. reflexivity.
+  - destruct sok; simpl; [|apply ct_same].
+    unfold reg_by_oper. destruct (lookup o (s_reg s)) as [P|] eqn:Eo; simpl; [|apply ct_same].
+    destruct (optin_c (s_reg s) (s_now s) (s_unb s) o P k (getc s c')) as [x e] eqn:Ea.
+    destruct (e =? 0) eqn:Ee; simpl; [|apply ct_same]. apply Z.eqb_eq in Ee. subst e.
+    unfold optin_c in Ea. destruct (is_active (c_phase (getc s c'))) eqn:Ha; simpl in Ea; [|inversion Ea].
+    apply SET; [apply active_nonzero; auto|]. intros ->.
+    destruct k as [k|].
+    + eapply ct_assign; [apply (keyeq_optin P)|exact Eo| |exact Ea]. simpl. rewrite Nat.eqb_refl, Z.eqb_refl. reflexivity.
+    + inversion Ea; subst. apply ct_fields; simpl; auto.
+  - unfold reg_by_oper. destruct (lookup o (s_reg s)); simpl; [apply ct_same|].
+    destruct (reg_by_key key (s_reg s)); simpl; [apply ct_same|].
+    destruct (key_in_use key (s_cons s)); simpl; apply ct_same.
+  - unfold reg_by_oper. destruct (lookup o (s_reg s)) as [P|]; simpl; [|apply ct_same].
+    unfold getc. simpl. rewrite getc_map; [apply ct_remove|reflexivity].
+  - unfold getc. simpl. destruct (Nat.lt_ge_cases c (length (s_cons s))) as [Hlt|Hge].
+    + rewrite app_nth1; auto. apply ct_same.
+    + rewrite (nth_overflow (s_cons s)); auto.
+      destruct (Nat.eq_dec c (length (s_cons s))) as [->|Hne].
+      * rewrite app_nth2; auto. rewrite Nat.sub_diag. simpl. apply ct_fresh.
+      * rewrite nth_overflow; [apply ct_same|]. rewrite app_length. simpl. lia.
+  - destruct (c_phase (getc s c') =? 1) eqn:E; simpl; [|apply ct_same]. apply Z.eqb_eq in E.
+    apply SET; [lia|]. intros ->. apply ct_fields; simpl; auto.
+  - destruct (c_phase (getc s c') =? 2) eqn:E; simpl; [|apply ct_same]. apply Z.eqb_eq in E.
+    apply SET; [lia|]. intros ->. apply ct_fields; simpl; auto.
+  - destruct (c_phase (getc s c') =? 0) eqn:E0; simpl; [apply ct_same|].
+    destruct ok; simpl; [|apply ct_same].
+    destruct (c_phase (getc s c') =? 3) eqn:E; simpl; [|apply ct_same]. apply Z.eqb_eq in E.
+    apply SET; [lia|]. intros ->. apply ct_fields; simpl; auto.
+  - destruct (c_phase (getc s c') =? 4) eqn:E; simpl; [|apply ct_same]. apply Z.eqb_eq in E.
+    apply SET; [lia|]. intros ->. apply ct_delete.
+  - unfold getc. simpl. rewrite getc_map; [|reflexivity].
+    destruct (removal_due (s_now s) (nth c (s_cons s) cdefault)); [apply ct_delete|apply ct_same].
+  - unfold getc. simpl. rewrite getc_map; [|reflexivity].
+    destruct (c_client (nth c (s_cons s) cdefault)) eqn:Ec; [apply ct_prune; auto|apply ct_same].
+  - apply ct_same.
+  - destruct (c_phase (getc s c') =? 3); simpl; [|apply ct_same].
+    destruct (reg_by_key (resolve s c' k) (s_reg s)); simpl; [|apply ct_same].
+    destruct (mem z (s_jailed s)); simpl; apply ct_same.
+Qed.
+
+(* the replaced key k of validator P is held for pruning at dl *)
+Definition Wc (k P dl : Z) (x : consumer) : Prop :=
+  lookup k (c_byaddr x) = Some P /\ In (dl, k) (c_toprune x) /\ c_client x = true.
+
+Lemma cinv_keyeq : forall reg x1 x, keyeq x1 x -> cinv reg x -> cinv reg x1.
+Proof.
+  intros reg x1 x [Ha [Hb [Ht [Hc Hp]]]] H. eapply cinv_ext; eauto.
+  - rewrite Hp. auto.
+  - rewrite Hp, Hc. destruct H; auto.
+Qed.
+
+Lemma Wc_ctrans : forall s a c k P dl x x',
+  cinv (s_reg s) x -> ctrans s a c x x' -> Wc k P dl x ->
+  c_phase x' <> 5 -> (a = OEndBlock -> s_now s < dl) -> Wc k P dl x'.
+Proof.
+  intros s a c k P dl x x' Hc Ht [Hb [Hin Hcl]] Hph Hend.
+  assert (Hkt : In k (map snd (c_toprune x))) by (eapply in_keys; eauto).
+  destruct Ht as [x|x x1 x' o P' k' Hke Ho Hn Ha|x P'|x x' Ea Eb Et Ecl|x|x He Hcl'|].
+  - split; auto.
+  - (* assignment on this consumer *)
+    pose proof (cinv_keyeq _ _ _ Hke Hc) as [j1 j2 j3 j4 j5 j6 j8].
+    destruct Hke as [Ka [Kb [Kt [Kc Kp]]]].
+    apply assign_c_ok_inv in Ha. destruct Ha as [Hact [_ [Hk' ->]]].
+    rewrite <- Kb in Hb. rewrite <- Kt in Hin, Hkt. rewrite <- Kc in Hcl.
+    assert (Hne : k <> k') by congruence.
+    split; [|split]; cbn [c_toprune c_byaddr c_client set_keys]; auto.
+    + rewrite lookup_set_other; auto. unfold assign_b1.
+      destruct (lookup P' (c_assigned x1)) as [old|] eqn:Eo; auto.
+      destruct (c_phase x1 =? 3); auto.
+      rewrite lookup_remove_other; auto. intros ->. apply (j2 _ P' Hkt). exact Eo.
+    + unfold assign_t1. destruct (lookup P' (c_assigned x1)) as [old|]; auto.
+      destruct (c_phase x1 =? 3); auto. apply tp_insert_in. auto.
+  - (* validator removed *)
+    destruct Hc as [j1 j2 j3 j4 j5 j6 j8]. unfold remove_val_c.
+    destruct (lookup P' (c_assigned x)) as [k1|] eqn:E1; [|split; auto].
+    split; [|split]; cbn [c_toprune c_byaddr c_client set_keys]; auto.
+    rewrite lookup_remove_other; auto. intros ->. apply (j2 _ P' Hkt). exact E1.
+  - split; [|split]; try rewrite Eb; try rewrite Et; auto.
+  - simpl in Hph. congruence.
+  - (* pruning before the deadline *)
+    destruct Hc as [j1 j2 j3 j4 j5 j6 j8]. specialize (Hend He).
+    split; [|split]; cbn [prune_c c_toprune c_byaddr c_client set_keys]; auto.
+    + rewrite lookup_remove_keys_notin; auto.
+      intros Hd. apply due_keys_in in Hd. destruct Hd as [ts [Hin' Hle]].
+      assert (ts = dl) by (eapply nodup_keys_unique; eauto). lia.
+    + apply filter_In. split; auto. unfold due. simpl. apply negb_true_iff. apply Z.leb_gt. exact Hend.
+  - simpl in Hb. discriminate.
+Qed.
+
+(* no step deletes consumer c, and every EndBlock happens before dl *)
+Fixpoint quiet (c : nat) (dl : Z) (ops : list op) (s : state) : Prop :=
+  match ops with
+  | [] => True
+  | a :: r => let s' := fst (step s a) in
+              c_phase (getc s' c) <> 5 /\ (a = OEndBlock -> s_now s < dl) /\ quiet c dl r s'
+  end.
+
+Lemma W_exec : forall c k P dl ops s,
+  sinv s -> Wc k P dl (getc s c) -> quiet c dl ops s ->
+  sinv (exec ops s) /\ Wc k P dl (getc (exec ops s) c).
+Proof.
+  intros c k P dl ops. induction ops as [|a r IH]; intros s Hs Hw Hq; simpl; auto.
+  destruct Hq as [Hph [Hend Hq]].
+  apply IH; auto.
+  - apply step_sinv; auto.
+  - eapply Wc_ctrans; eauto.
+    + apply sinv_getc; auto.
+    + apply step_ctrans.
+Qed.
+
+(* a successful replacement on a launched consumer opens the window *)
+Lemma replace_opens : forall s c P k a s',
+  sinv s -> c_phase (getc s c) = 3 -> lookup P (c_assigned (getc s c)) = Some k ->
+  (exists o k' , (a = OAssign c o k' true \/ a = OOptIn c o (Some k') true) /\ reg_by_oper o (s_reg s) = Some P) ->
+  step s a = (s', 0) ->
+  sinv s' /\ Wc k P (s_now s + s_unb s) (getc s' c).
+Proof.
+  intros s c P k a s' Hs Hph Hl [o [k' [Ha Ho]]] Hstep.
+  assert (Hs' : sinv s') by (replace s' with (fst (step s a)) by (rewrite Hstep; reflexivity); apply step_sinv; auto).
+  split; auto.
+  pose proof (sinv_getc s c Hs) as Hc. pose proof Hc as [j1 j2 j3 j4 j5 j6 j8].
+  assert (Hin : (c < length (s_cons s))%nat) by (apply phase_in_range; lia).
+  assert (G : forall x1, keyeq x1 (getc s c) ->
+          forall x', assign_c (s_reg s) (s_now s) (s_unb s) o P k' x1 = (x', 0) -> Wc k P (s_now s + s_unb s) x').
+  { intros x1 [Ka [Kb [Kt [Kc Kp]]]] x' Hac. apply assign_c_ok_inv in Hac. destruct Hac as [_ [_ [Hk' ->]]].
+    unfold assign_b1, assign_t1. rewrite Ka, Kb, Kt, Kp, Hl, Hph. simpl.
+    rewrite Kb in Hk'. assert (k <> k') by (intros ->; apply j4 in Hl; congruence).
+    split; [|split]; cbn [c_toprune c_byaddr c_client set_keys].
+    - rewrite lookup_set_other; auto.
+    - apply tp_insert_in. auto.
+    - rewrite Kc. apply j8. auto. }
+  unfold reg_by_oper in Ho. destruct Ha as [-> | ->]; simpl in Hstep; unfold reg_by_oper in Hstep; rewrite Ho in Hstep.
+  - destruct (assign_c _ _ _ _ _ _ _) as [x e] eqn:Ea. destruct (e =? 0) eqn:Ee.
+    + apply Z.eqb_eq in Ee. subst e. inversion Hstep; subst s'. rewrite getc_setc_same; auto.
+      eapply G; [apply keyeq_refl|exact Ea].
+    + inversion Hstep; subst. rewrite Z.eqb_refl in Ee. discriminate.
+  - unfold optin_c in Hstep. destruct (is_active (c_phase (getc s c))) eqn:Eact; simpl in Hstep;
+      [|inversion Hstep].
+    destruct (assign_c _ _ _ _ _ _ _) as [x e] eqn:Ea. destruct (e =? 0) eqn:Ee.
+    + apply Z.eqb_eq in Ee. subst e. inversion Hstep; subst s'. rewrite getc_setc_same; auto.
+      eapply G; [apply (keyeq_optin P)|exact Ea].
+    + inversion Hstep; subst. rewrite Z.eqb_refl in Ee. discriminate.
+Qed.
+
+Lemma resolve_byaddr : forall s c k P, lookup k (c_byaddr (getc s c)) = Some P -> resolve s c k = P.
+Proof. intros s c k P H. unfold resolve, resolve_c. rewrite H. reflexivity. Qed.
+
+(* the first EndBlock at/after the deadline forgets the key *)
+Lemma forgotten : forall s c k P dl, sinv s -> Wc k P dl (getc s c) -> dl <= s_now s ->
+  let s' := fst (step s OEndBlock) in
+  lookup k (c_byaddr (getc s' c)) = None /\ ~ In k (map snd (c_toprune (getc s' c))) /\ resolve s' c k = k.
+Proof.
+  intros s c k P dl Hs [Hb [Hin Hcl]] Hle. simpl.
+  pose proof (sinv_getc s c Hs) as [j1 j2 j3 j4 j5 j6 j8].
+  unfold getc in *. simpl. rewrite getc_map; [|reflexivity]. rewrite Hcl.
+  assert (A : lookup k (c_byaddr (prune_c (s_now s) (nth c (s_cons s) cdefault))) = None).
+  { cbn [prune_c c_byaddr set_keys]. apply lookup_remove_keys_in.
+    apply in_map_iff. exists (dl, k). split; auto. apply filter_In. split; auto.
+    unfold due. simpl. apply Z.leb_le. exact Hle. }
+  split; [exact A|]. split.
+  - cbn [prune_c c_toprune set_keys]. intros Hn. apply notdue_keys_in in Hn. destruct Hn as [ts [Hin' Hlt]].
+    assert (ts = dl) by (eapply nodup_keys_unique; eauto). lia.
+  - unfold resolve, resolve_c, getc. simpl. rewrite getc_map; [|reflexivity]. rewrite Hcl, A. reflexivity.
+Qed.
+
+(* a key that is unknown on an active consumer and is nobody's provider key can be assigned *)
+Lemma assign_ok : forall s c o P k,
+  is_active (c_phase (getc s c)) = true -> reg_by_oper o (s_reg s) = Some P ->
+  lookup k (c_byaddr (getc s c)) = None -> reg_by_key k (s_reg s) = None ->
+  snd (step s (OAssign c o k true)) = 0.
+Proof.
+  intros s c o P k Ha Ho Hk Hr. simpl. rewrite Ho. unfold assign_c. rewrite Ha, Hr, Hk. simpl.
+  destruct (lookup P (c_assigned (getc s c))); [destruct (c_phase (getc s c) =? 3)|]; reflexivity.
+Qed.
+
+(* keys never named on c stay unknown there *)
+Lemma lookup_remove_none : forall k a l, lookup k l = None -> lookup k (remove_key a l) = None.
+Proof.
+  intros k a l H. destruct (Z.eq_dec k a) as [->|Hne].
+  - apply lookup_remove_same.
+  - rewrite lookup_remove_other; auto.
+Qed.
+
+Lemma lookup_remove_keys_none : forall k ks l, lookup k l = None -> lookup k (remove_keys ks l) = None.
+Proof.
+  intros k ks l H. destruct (in_dec Z.eq_dec k ks).
+  - apply lookup_remove_keys_in; auto.
+  - rewrite lookup_remove_keys_notin; auto.
+Qed.
+
+Lemma unknown_ctrans : forall s a c k x x',
+  ctrans s a c x x' -> names a c k = false -> lookup k (c_byaddr x) = None -> lookup k (c_byaddr x') = None.
+Proof.
+  intros s a c k x x' Ht Hn Hk.
+  destruct Ht as [x|x x1 x' o P' k' Hke Ho Hn' Ha|x P'|x x' Ea Eb Et Ecl|x|x He Hcl'|]; auto.
+  - destruct Hke as [Ka [Kb _]]. apply assign_c_ok_inv in Ha. destruct Ha as [_ [_ [_ ->]]].
+    cbn [c_byaddr set_keys]. assert (k <> k') by (intros ->; congruence).
+    rewrite lookup_set_other; auto. unfold assign_b1. rewrite Kb.
+    destruct (lookup P' (c_assigned x1)); auto. destruct (c_phase x1 =? 3); auto.
+    apply lookup_remove_none; auto.
+  - unfold remove_val_c. destruct (lookup P' (c_assigned x)); auto.
+    cbn [c_byaddr set_keys]. apply lookup_remove_none; auto.
+  - rewrite Eb. auto.
+  - cbn [prune_c c_byaddr set_keys]. apply lookup_remove_keys_none; auto.
+Qed.
+
+Lemma unknown_exec : forall c k ops s,
+  (forall a, In a ops -> names a c k = false) -> lookup k (c_byaddr (getc s c)) = None ->
+  lookup k (c_byaddr (getc (exec ops s) c)) = None.
+Proof.
+  intros c k ops. induction ops as [|a r IH]; intros s Hn Hk; simpl; auto.
+  apply IH.
+  - intros a' Hin. apply Hn. right. auto.
+  - eapply unknown_ctrans; [apply step_ctrans| |exact Hk]. apply Hn. left. auto.
+Qed.
+
+Lemma identity_never_assigned : forall unb c k ops,
+  (forall a, In a ops -> names a c k = false) -> resolve (exec ops (init unb)) c k = k.
+Proof.
+  intros unb c k ops Hn. unfold resolve, resolve_c.
+  rewrite (unknown_exec c k ops (init unb) Hn); auto.
+  unfold getc. simpl. destruct c; reflexivity.
+Qed.
+
+(* before launch the replaced key is dropped at once *)
+Lemma prelaunch_dropped : forall s c o P k k' sok s',
+  sinv s -> c_phase (getc s c) = 1 \/ c_phase (getc s c) = 2 ->
+  reg_by_oper o (s_reg s) = Some P -> lookup P (c_assigned (getc s c)) = Some k ->
+  step s (OAssign c o k' sok) = (s', 0) ->
+  lookup k (c_byaddr (getc s' c)) = None /\ resolve s' c k = k.
+Proof.
+  intros s c o P k k' sok s' Hs Hph Ho Hl Hstep.
+  pose proof (sinv_getc s c Hs) as [j1 j2 j3 j4 j5 j6 j8].
+  assert (Hin : (c < length (s_cons s))%nat) by (apply phase_in_range; lia).
+  simpl in Hstep. destruct sok; simpl in Hstep; [|inversion Hstep].
+  rewrite Ho in Hstep. destruct (assign_c _ _ _ _ _ _ _) as [x e] eqn:Ea. destruct (e =? 0) eqn:Ee.
+  - apply Z.eqb_eq in Ee. subst e. inversion Hstep; subst s'.
+    apply assign_c_ok_inv in Ea. destruct Ea as [_ [_ [Hk' ->]]].
+    assert (A : lookup k (c_byaddr (getc (setc s c (set_keys (getc s c) (set_key P k' (c_assigned (getc s c)))
+                  (set_key k' P (assign_b1 P (getc s c))) (assign_t1 (s_now s + s_unb s) P (getc s c)))) c)) = None).
+    { rewrite getc_setc_same; auto. cbn [c_byaddr set_keys].
+      assert (k <> k') by (intros ->; apply j4 in Hl; congruence).
+      rewrite lookup_set_other; auto. unfold assign_b1. rewrite Hl.
+      replace (c_phase (getc s c) =? 3) with false by (symmetry; apply Z.eqb_neq; lia).
+      apply lookup_remove_same. }
+    split; [exact A|]. unfold resolve, resolve_c. rewrite A. reflexivity.
+  - inversion Hstep; subst. rewrite Z.eqb_refl in Ee. discriminate.
+Qed.
+
+(* who is punished: a slash request for consumer address k jails the owner of resolve c k *)
+Lemma slash_resolves : forall s c k o,
+  c_phase (getc s c) = 3 -> reg_by_key (resolve s c k) (s_reg s) = Some o ->
+  let s' := fst (step s (OSlash c k)) in
+  In o (s_jailed s') /\ (forall j, In j (s_jailed s') -> j = o \/ In j (s_jailed s)) /\ s_cons s' = s_cons s.
+Proof.
+  intros s c k o Hph Hr. simpl. rewrite Hph, Hr. simpl.
+  destruct (mem o (s_jailed s)) eqn:Em; simpl.
+  - apply mem_In in Em. auto.
+  - split; auto. split; auto. intros j [H|H]; auto.
+Qed.
+
+Lemma step_unb : forall s a, s_unb (fst (step s a)) = s_unb s.
+Proof.
+  intros s a. destruct a as [c o k sok|c o k sok|o key|o| |c|c|c ok|c| | |dt|c k]; simpl; auto.
+  - destruct sok; simpl; auto. destruct (reg_by_oper o (s_reg s)); simpl; auto.
+    destruct (assign_c _ _ _ _ _ _ _) as [x e]. destruct (e =? 0); reflexivity.
+  - destruct sok; simpl; auto. destruct (reg_by_oper o (s_reg s)); simpl; auto.
+    destruct (optin_c _ _ _ _ _ _ _) as [x e]. destruct (e =? 0); reflexivity.
+  - destruct (reg_by_oper o (s_reg s)); simpl; auto. destruct (reg_by_key key (s_reg s)); simpl; auto.
+    destruct (key_in_use key (s_cons s)); reflexivity.
+  - destruct (reg_by_oper o (s_reg s)); reflexivity.
+  - destruct (c_phase (getc s c) =? 1); reflexivity.
+  - destruct (c_phase (getc s c) =? 2); reflexivity.
+  - destruct (c_phase (getc s c) =? 0); simpl; auto. destruct ok; simpl; auto.
+    destruct (c_phase (getc s c) =? 3); reflexivity.
+  - destruct (c_phase (getc s c) =? 4); reflexivity.
+  - destruct (c_phase (getc s c) =? 3); simpl; auto.
+    destruct (reg_by_key _ _); simpl; auto. destruct (mem _ _); reflexivity.
+Qed.
+
+Lemma exec_unb : forall ops s, s_unb (exec ops s) = s_unb s.
+Proof.
+  induction ops as [|a r IH]; intros s; simpl; auto. rewrite IH. apply step_unb.
+Qed.
+
+(* ---------- statements in the form used by Props/C05.v and Props/C06.v ---------- *)
+Definition replaces (s : state) (c : nat) (P : Z) (a : op) : Prop :=
+  exists o k', (a = OAssign c o k' true \/ a = OOptIn c o (Some k') true) /\ reg_by_oper o (s_reg s) = Some P.
+
+Lemma attributable : forall U ops0 c a P k s1 ops,
+  let s0 := exec ops0 (init U) in
+  c_phase (getc s0 c) = 3 -> lookup P (c_assigned (getc s0 c)) = Some k -> replaces s0 c P a ->
+  step s0 a = (s1, 0) -> quiet c (s_now s0 + U) ops s1 ->
+  lookup k (c_byaddr (getc (exec ops s1) c)) = Some P /\ resolve (exec ops s1) c k = P.
+Proof.
+  intros U ops0 c a P k s1 ops s0 Hph Hl Hr Hstep Hq.
+  destruct (replace_opens s0 c P k a s1 (reach_sinv U ops0) Hph Hl Hr Hstep) as [Hs1 Hw].
+  unfold s0 in Hw at 2. rewrite exec_unb in Hw. simpl in Hw.
+  destruct (W_exec c k P _ ops s1 Hs1 Hw Hq) as [_ [Hb _]].
+  split; auto. apply resolve_byaddr; auto.
+Qed.
+
+Lemma forgotten_after : forall U ops0 c a P k s1 ops,
+  let s0 := exec ops0 (init U) in
+  c_phase (getc s0 c) = 3 -> lookup P (c_assigned (getc s0 c)) = Some k -> replaces s0 c P a ->
+  step s0 a = (s1, 0) -> quiet c (s_now s0 + U) ops s1 ->
+  s_now s0 + U <= s_now (exec ops s1) ->
+  let s3 := fst (step (exec ops s1) OEndBlock) in
+  lookup k (c_byaddr (getc s3 c)) = None /\ ~ In k (map snd (c_toprune (getc s3 c))) /\ resolve s3 c k = k /\
+  (forall o2 P2, is_active (c_phase (getc s3 c)) = true -> reg_by_oper o2 (s_reg s3) = Some P2 ->
+                 reg_by_key k (s_reg s3) = None -> snd (step s3 (OAssign c o2 k true)) = 0).
+Proof.
+  intros U ops0 c a P k s1 ops s0 Hph Hl Hr Hstep Hq Hle s3.
+  destruct (replace_opens s0 c P k a s1 (reach_sinv U ops0) Hph Hl Hr Hstep) as [Hs1 Hw].
+  unfold s0 in Hw at 2. rewrite exec_unb in Hw. simpl in Hw.
+  destruct (W_exec c k P _ ops s1 Hs1 Hw Hq) as [Hs2 Hw2].
+  destruct (forgotten _ c k P _ Hs2 Hw2 Hle) as [A [B C]].
+  split; [exact A|]. split; [exact B|]. split; [exact C|].
+  intros o2 P2 Hact Ho Hk. eapply assign_ok; eauto.
+Qed.
+
+Definition witness_ops : list op :=
+  [OCreateVal 0 0; ORegister; OInitialize 0; OLaunch 0; OAssign 0 0 5 true; OStop 0 true; OCreateVal 1 5].
+
+(* on a STOPPED (not yet deleted) consumer the full association relation is not functional:
+   ValidatorConsensusKeyInUse only looks at active consumers *)
+Lemma stopped_witness :
+  let s := exec witness_ops (init 1000) in
+  c_phase (getc s 0) = 4 /\ assoc s 0 5 0 /\ assoc s 0 5 5 /\
+  snd (step (exec (removelast witness_ops) (init 1000)) (OCreateVal 1 5)) = 0.
+Proof.
+  split; [reflexivity|]. split; [right; left; reflexivity|]. split; [|reflexivity].
+  right. right. split; [reflexivity|]. vm_compute. discriminate.
+Qed.
+
+Lemma not_injective_incl_stopped :
+  ~ (forall U ops c k P1 P2,
+       let s := exec ops (init U) in
+       is_active (c_phase (getc s c)) = true \/ c_phase (getc s c) = 4 ->
+       assoc s c k P1 -> assoc s c k P2 -> P1 = P2).
+Proof.
+  intros H. destruct stopped_witness as [Hp [H1 [H2 _]]].
+  specialize (H 1000 witness_ops 0%nat 5 0 5 (or_intror Hp) H1 H2). discriminate.
 Qed.
